@@ -35,6 +35,7 @@ type Obligation struct {
 	Pos     string   // source position (informational)
 	Values  []string // terms worth reporting from a model (inputs)
 	Vacuity bool     // true: expected NOT to be unsat (assert false probe)
+	Static  bool     // decided syntactically: Goal is the literal true or false
 	// results
 	Result     string // unsat | sat | unknown | timeout | error
 	Solver     string
